@@ -24,7 +24,7 @@ TARGETS = GRID_CODECS + ROOM_CODECS
 MEM_CAP = 2 * 2 ** 30
 TOKENS = {
     "number16": ["0", "1", "9", "a", "f", ".", "g", "h", "z", "-10", "-ff", "+100", "+fff", "-", "+", "-g", "--1"],
-    "yajilin": ["0.", "00", "11", "1.", "2a", "3f", "41", "50a", "610", "9ff", "a", "b", "z", "5", "1"],
+    "yajilin": ["0.", "00", "11", "1.", "2a", "3f", "41", "50a", "610", "9ff", "710", "8a0", "a", "b", "z", "5", "1"],
     "slitherlink": ["0", "4", "5", "9", "a", "e", "f", "g", "z", "."],
     "masyu": ["0", "1", "9", "q", "r", "z", "i"],
     "lits": ["0", "v", "g", "1", "u", "w", "z"],
@@ -242,8 +242,12 @@ def strategies():
             w = str(draw(st.integers(0, 4)))
             h = str(draw(st.integers(0, 4)))
             toks = TOKENS.get(codec, TOKENS["number16"])
-            bodytxt = "".join(draw(st.lists(st.one_of(st.sampled_from(toks), st.sampled_from(list(URL_ALPHABET))),
-                                            max_size=24)))
+            item = st.one_of(st.sampled_from(toks), st.sampled_from(toks), st.sampled_from(toks),
+                             st.sampled_from(toks), st.sampled_from(toks), st.sampled_from(list(URL_ALPHABET)))
+            bodytxt = "".join(draw(st.lists(item, max_size=draw(st.sampled_from([3, 6, 12, 24])))))
+            chop = draw(st.sampled_from([0, 0, 1, 1, 2]))  # a last token cut short
+            if chop and len(bodytxt) > chop:
+                bodytxt = bodytxt[:-chop]
             return "%s%s/%s/%s/%s" % (host, name, w, h, bodytxt)
         bodytxt = draw(st.text(alphabet=URL_ALPHABET, max_size=60))
         parts = [name, w, h, bodytxt][:draw(st.integers(1, 4))]
@@ -342,6 +346,33 @@ def shard(arg):
     return st
 
 
+def shard_exhaustive(codec):
+    """small-scope exhaustion: every body of up to 3 (4) characters over the codec's own token
+    characters on tiny boards, through the codec's deserialize_* function"""
+    import itertools
+    import resource
+
+    resource.setrlimit(resource.RLIMIT_AS, (MEM_CAP, MEM_CAP))
+    st = Stats()
+    toks = TOKENS.get(codec, TOKENS["number16"])
+    chars = sorted(set("".join(toks)))
+    maxlen = 4 if len(chars) <= 9 else 3
+    name = c16.URL_NAME[codec]
+    for (w, h) in ((1, 1), (2, 1), (3, 1), (1, 3), (2, 2), (4, 1)):
+        for n in range(0, maxlen + 1):
+            for combo in itertools.product(chars, repeat=n):
+                text = "https://puzz.link/p?%s/%d/%d/%s" % (name, w, h, "".join(combo))
+                case = dict(kind="puzzle", codec=codec, text=text, edits=1)
+                try:
+                    out = check_puzzle(codec, text)
+                except Failure as f:
+                    st.fail(f, case, "c17.exhaustive")
+                    out = "failed"
+                st.case(nontrivial=True, counted=True, classes=["exhaustive-short-bodies", "outcome:" + out],
+                        sample=case if out == "problem" and n >= 2 else None)
+    return st
+
+
 def run_atheris(ctx, seconds, workers):
     """thorough tier: coverage-guided campaign in subprocesses (tools/fuzz_c17.py); each worker writes
     its result file incrementally because libFuzzer ends the process itself"""
@@ -388,13 +419,16 @@ def run(ctx):
         "or arbitrary Unicode character, truncate); plain arbitrary text; deserialize_problem_as_url with "
         "generated allowed_puzzles/allow_failure/return_size; get_puzzle_info_from_url; "
         "deserialize_problem(term, text, height, width) for generated combinator terms with mutated texts "
-        "and odd sizes (thorough: plus an atheris campaign on the same entry function). non-trivial = input "
+        "and odd sizes; every body of <= 3 (4) characters over each codec's token characters on six tiny "
+        "boards (exhaustive); thorough: plus an atheris campaign on the same entry function. non-trivial = input "
         "with >= 1 edit that reached a verdict (problem / None / ValueError); distinct by case hash")
     ctx.assumptions = ["compass.parse_puzz_link_url is not a deserialize_* function and is not named by the property",
                        "workers run under a 2 GiB address-space cap; MemoryError on inputs of < 500 characters counts as a crash",
                        "recursion limit left at Python's default 1000"]
-    k, n = (8, 700) if ctx.quick() else (16, 30000)
+    k, n = (8, 1500) if ctx.quick() else (16, 30000)
     for r in pmap(shard, [(ctx.seed * 1000 + i, n) for i in range(k)]):
+        ctx.stats.merge(r)
+    for r in pmap(shard_exhaustive, TARGETS):
         ctx.stats.merge(r)
     if not ctx.quick():
         run_atheris(ctx, 60, 16)
